@@ -647,6 +647,22 @@ fn rules_of(universe: &str, index: u64, wide: &[Vec<&'static str>]) -> Option<Ve
             Some(idx.iter().map(|&i| (R_ALL[i].0.to_string(), R_ALL[i].1)).collect())
         }
         "W" => wide.get(index as usize).map(|v| v.iter().map(|r| (r.to_string(), Fm::Std)).collect()),
+        // the rule cube: cell (pattern, option set, exception?) plus the cells of the same pattern
+        // under the next two option sets (one bucket, three ids)
+        "Q" => {
+            let (np, no) = (vh::alpha::CUBE_PATTERNS.len() as u64, vh::alpha::CUBE_OPTIONS.len() as u64);
+            let (p, o, exc) = ((index % np) as usize, ((index / np) % no) as usize, index / np / no == 1);
+            let first = vh::alpha::cube_rule(p, o, exc)?;
+            let mut v = vec![(first, Fm::Std)];
+            for d in 1..=2 {
+                if let Some(r) = vh::alpha::cube_rule(p, (o + d) % no as usize, false) {
+                    if v.iter().all(|x| x.0 != r) {
+                        v.push((r, Fm::Std));
+                    }
+                }
+            }
+            Some(v)
+        }
         _ => None,
     }
 }
@@ -787,6 +803,15 @@ fn check(ctx: &Ctx) -> i32 {
             l.samples.push(json!({"case": case_json("L", li, &rules, CFGS[ci], ci), "child_process": with_child}));
         }
         check_case("L", li, &rules, ci, with_child, &env, l);
+    });
+    let cube_cells = (vh::alpha::CUBE_PATTERNS.len() * vh::alpha::CUBE_OPTIONS.len() * 2) as u64;
+    ctx.bound("cube_cells", cube_cells);
+    ctx.par_range("rule-cube-x-configs", cube_cells * CFGS.len() as u64, 4, |i, l| {
+        let qi = i / CFGS.len() as u64;
+        let ci = (i % CFGS.len() as u64) as usize;
+        if let Some(rules) = rules_of("Q", qi, &wide) {
+            check_case("Q", qi, &rules, ci, qi % 16 == 3, &env, l);
+        }
     });
     ctx.par_range("wide-lists-x-configs", wide.len() as u64 * CFGS.len() as u64, 1, |i, l| {
         let wi = i / CFGS.len() as u64;
